@@ -184,8 +184,14 @@ def _zmeas_spec(I, T, q, mode):
     rt, rp, ri = tab.reader(), ph.reader(), ip.reader()
     n_, q_ = to_z3(n), to_z3(q)
     path = I.path
-    if I.choice is not None:
-        found, p, outcome = I.choice["found"], I.choice["p"], I.choice["outcome"]
+    ch = I.choice
+    if ch is not None and "calls" in ch:  # a caller with several measurements (partial_trace): the body's choices in call order
+        k = ch.get("_next", 0)
+        ch["_next"] = k + 1
+        ch = ch["calls"][k] if k < len(ch["calls"]) else {"found": path.fresh("anticomm", "bool"), "p": path.fresh("pivot"),
+                                                          "outcome": path.fresh("outcome")}
+    if ch is not None:
+        found, p, outcome = ch["found"], ch["p"], ch["outcome"]
     else:
         found, p, outcome = path.fresh("anticomm", "bool"), path.fresh("pivot"), path.fresh("outcome")
     path.ghost.setdefault("zmeas_calls", []).append(dict(found=found, p=p, outcome=outcome))
